@@ -2,6 +2,7 @@
    the faithful model (witnesses by computation). *)
 From Gv Require Import lib.Bytes lib.Json lib.Gql lib.Exec C03.Model C03.Spec
      C03.ProofsExec C03.ProofsRel C03.ProofsDoc C03.ProofsPasses C03.ProofsCompose C03.Examples.
+From Coq Require Import Lia PeanoNat.
 Open Scope N_scope.
 
 (* { a { name @skip(if: true) } } : the pass empties the selection set of [a] and puts its
@@ -32,17 +33,57 @@ Theorem frag_inline_idempotent_refuted :
   exists S d, frag_inline S (frag_inline S d) <> frag_inline S d.
 Proof. exists S0, d_cycle. vm_compute. discriminate. Qed.
 
-(* { count @skip(if: false) @include(if: false) @tag } : the directive walk drops @skip, then reads
-   the position after it, which by now holds @tag -- @include(if: false) is not visited and the
-   field survives this run; a second run removes it (the real first stage does exactly this, the
-   engine's second normalisation repairs it) *)
+(* { count @skip(if: false) @include(if: false) @tag } : BEFORE THE REPAIR
+   (work/c03_fix_directive-after-dropped-directive-not-visited.patch) the directive walk dropped @skip,
+   then read the position after it, which by then held @tag -- @include(if: false) was not visited
+   and the field survived the run; a second run removed it.  The repaired pass removes it at once. *)
 Definition dir_tag : directive := {| d_name := [116;97;103]; d_args := [] |}.
 Definition dir_include (v : value) : directive := {| d_name := s_include; d_args := [(s_if, v)] |}.
 Definition d_three : document :=
   [ DOp {| op_kind := OpQuery; op_name := None; op_vars := []; op_dirs := [];
            op_sels := [ SField None n_count [] [dir_skip (VBool false); dir_include (VBool false); dir_tag] [];
                         SField None n_a [] [] [ SField None n_name [] [] [] ] ] |} ].
+Definition d_three_done : document :=
+  [ DOp {| op_kind := OpQuery; op_name := None; op_vars := []; op_dirs := [];
+           op_sels := [ SField None n_a [] [] [ SField None n_name [] [] [] ] ] |} ].
 
-Theorem include_skip_idempotent_refuted :
-  exists jv d, include_skip jv (include_skip jv d) <> include_skip jv d.
+Theorem include_skip_idempotent_pre_repair_refuted :
+  exists jv d, include_skip_pre_repair jv (include_skip_pre_repair jv d) <> include_skip_pre_repair jv d.
 Proof. exists [], d_three. vm_compute. discriminate. Qed.
+
+Theorem include_skip_fixed_witness :
+  include_skip [] d_three = d_three_done /\ include_skip_pre_repair [] d_three <> d_three_done.
+Proof. split; [vm_compute; reflexivity|vm_compute; discriminate]. Qed.
+
+(* { a { id ... { name @skip(if: true) } } } and { a { id name @skip(if: true) } } differ only in
+   fragment structure.  BEFORE THE REPAIR (work/c03_fix_placeholder-left-after-fragment-inlining.patch)
+   the placeholder that @skip left in the emptied fragment was inlined next to [id], so the two had
+   different normal forms; the repaired pass drops the emptied fragment. *)
+Definition d_wrapped : document :=
+  [ DOp {| op_kind := OpQuery; op_name := None; op_vars := []; op_dirs := [];
+           op_sels := [ SField None n_a [] [] [ SField None n_id [] [] [];
+                                                SInline None [] [ SField None n_name [] [dir_skip (VBool true)] [] ] ] ] |} ].
+Definition d_plain : document :=
+  [ DOp {| op_kind := OpQuery; op_name := None; op_vars := []; op_dirs := [];
+           op_sels := [ SField None n_a [] [] [ SField None n_id [] [] [];
+                                                SField None n_name [] [dir_skip (VBool true)] [] ] ] |} ].
+
+Theorem placeholder_pre_repair_refuted :
+  norm_selections_pre_repair S0 [] d_wrapped <> norm_selections_pre_repair S0 [] d_plain.
+Proof. vm_compute. discriminate. Qed.
+
+Theorem placeholder_fixed_witness :
+  norm_selections S0 [] d_wrapped = norm_selections S0 [] d_plain.
+Proof. vm_compute. reflexivity. Qed.
+
+(* the firing rule of the repaired pass: an inlinable fragment that holds only the placeholder is
+   removed whenever its selection set has another selection, before or after it *)
+Theorem placeholder_fragment_dropped : forall S T f c done r,
+  could_inline S T c [] [placeholder] = true -> (1 <= length done + length r)%nat ->
+  il_level S true (Datatypes.S f) T done (SInline c [] [placeholder] :: r) = il_level S true f T done r.
+Proof.
+  intros S T f c done r Hc Hl. cbn [il_level]. rewrite Hc.
+  assert (E : Nat.ltb 1 (length done + length (SInline c [] [placeholder] :: r)) = true).
+  { apply Nat.ltb_lt. cbn [length]. lia. }
+  rewrite E. reflexivity.
+Qed.
